@@ -79,7 +79,7 @@ class C20(vlib.Check):
                 d[sec] = [[k, tag_val(gen_value(rng))] for k in ks]
             self.count("roundtrip")
             yield {"t": "roundtrip", "opts": d, "fill": rng.random() < 0.5}
-        for k in range(3 if self.tier == "quick" else 15):
+        for k in range(6 if self.tier == "quick" else 30):
             self.count("file-vs-direct")
             yield {"t": "direct", "seed": rng.randrange(10 ** 6)}
 
@@ -102,7 +102,7 @@ class C20(vlib.Check):
         return secs, confgen, fprint
 
     def impl(self, case):
-        if case["t"] == "literal-string":
+        if case["t"] in ("literal-string", "ini-boolean", "nonfinite-float"):
             return {"ok": "see prop"}
         if case["t"] == "roundtrip":
             try:
@@ -171,6 +171,31 @@ class C20(vlib.Check):
             return None
         if case["t"] == "direct":
             return self._file_vs_direct(case)
+        if case["t"] == "nonfinite-float":
+            v = float(case["value"])
+            c2 = {"t": "roundtrip", "fill": False, "opts": {"preprocessing": [], "fingerprinting": [],
+                                                           "conformer_generation": [[case["key_name"], ["float", repr(v)]]]}}
+            secs, _, _ = self._roundtrip(c2)
+            got = secs["conformer_generation"][case["key_name"]]
+            if type(got) is not float or (got != v and v == v):
+                return {"key": case["key"], "what": "float option %s = %r reads back as %r (%s)" % (case["key_name"], v, got, type(got).__name__)}
+            return None
+        if case["t"] == "ini-boolean":
+            # a hand-written parameter file using an INI spelling of a boolean, read by the two routes of the library: the batch /
+            # command-line route (typed getters) and the pipeline route (params_to_dicts: automatic typing)
+            from e3fp.pipeline import params_to_dicts
+            from e3fp.config import params as P
+            path = os.path.join(self.tmp(), "ini%d.cfg" % abs(hash(case["text"])) )
+            open(path, "w").write("[fingerprinting]\n%s = %s\n" % (case["option"], case["text"]))
+            try:
+                typed = P.get_value(P.read_params(path), "fingerprinting", case["option"], bool)
+                _, fp = params_to_dicts(path)
+            finally:
+                os.remove(path)
+            if fp.get(case["option"]) is not typed and bool(fp.get(case["option"])) != typed:
+                return {"key": case["key"], "what": "%s = %s in a parameter file is %r for the batch route and %r (truth value %s) for the pipeline route" % (
+                    case["option"], case["text"], typed, fp.get(case["option"]), bool(fp.get(case["option"])))}
+            return None
         if case["t"] == "literal-string":
             c2 = {"t": "roundtrip", "fill": False, "opts": {"preprocessing": [], "fingerprinting": [],
                                                            "conformer_generation": [[case["key_name"], tag(case["value"])]]}}
@@ -206,6 +231,38 @@ class C20(vlib.Check):
             return {"key": "file-vs-direct-differs", "what": "fingerprints from a parameter file differ from the same options passed directly", "opts": o}
         if not a:
             return {"key": "file-vs-direct-empty", "what": "no fingerprints"}
+        # the batch route (what the command line runs) reading a parameter file - as the library writes it, and as a user writes
+        # it by hand with the INI spellings of booleans (configparser: yes/no, on/off, true/false in any case, 1/0) - against the
+        # same options passed as arguments
+        from e3fp.fingerprint import generate as FG
+        from e3fp.fingerprint.db import FingerprintDatabase
+        sdfs = sorted(__import__("glob").glob(os.path.join(vlib.REPO, "tests", "data", "rand_sdf_files", "*.sdf.bz2")))[:3]
+        bo = dict(o, bits=o["bits"] if o["bits"] <= 4096 else 1024, level=o["level"] if o["level"] != -1 else 5)
+        style = rng.choice(["library", "hand", "hand"])
+        spell = {True: ["True", "true", "yes", "on", "TRUE", "Yes", "1"], False: ["False", "false", "no", "off", "FALSE", "No", "0"]}
+        lines = ["[fingerprinting]"]
+        for k, v in bo.items():
+            lines.append("%s = %s" % (k, (rng.choice(spell[v]) if style == "hand" else str(v)) if isinstance(v, bool) else v))
+        path = os.path.join(self.tmp(), "b%d.cfg" % case["seed"])
+        open(path, "w").write("\n".join(lines) + "\n")
+        outs = []
+        try:
+            for kw in ({"params": path}, {k: v for k, v in bo.items()}):
+                dbf = os.path.join(self.tmp(), "b%d_%d.fpz" % (case["seed"], len(outs)))
+                try:
+                    FG.run(sdfs, db_file=dbf, parallel_mode="serial", **kw)
+                    db = FingerprintDatabase.load(dbf)
+                    outs.append(sorted((f.name, vlib.canon(dump_fp(f))) for f in db))
+                finally:
+                    if os.path.exists(dbf):
+                        os.remove(dbf)
+        except Exception as e:  # noqa: BLE001
+            return {"key": "batch-file-vs-direct-raises:" + type(e).__name__, "what": "generate.run raised %r" % e}
+        finally:
+            os.remove(path)
+        if outs[0] != outs[1] or not outs[0]:
+            return {"key": "batch-file-vs-direct-differs:" + style,
+                    "what": "generate.run(params=<%s-written file>) gives other fingerprints than generate.run(**the same options)" % style, "file": lines}
         return None
 
     def nontrivial(self, case, a_impl):
